@@ -62,7 +62,8 @@ fn hostile_preload(rng: &mut Rng, apps: &[AppSpec]) -> (BTreeMap<String, Val>, S
 fn hostile_body(rng: &mut Rng, apps: &[AppSpec]) -> (Vec<u8>, String) {
     let (doc, _) = gen_doc(rng, apps, None, true);
     let good = crate::sim::omaha::render_doc(&doc);
-    match rng.below(9) {
+    match rng.below(10) {
+        9 => (vec![], "empty".into()),
         0 => {
             let n = rng.usize(300);
             (rng.bytes(n), "random".into())
@@ -222,7 +223,23 @@ pub fn run(args: &Args, r: &mut Report) {
         let cfg = HistCfg { start_mode, cup: rng.chance(1, 4), n_apps: 1 + rng.usize(2), paths, cohorts: rng.bool(), deliveries: rng.bool(), random_params: rng.bool(), throttles: false };
         let mut case = gen_history(&mut rng, &cfg);
         let apps = case.setup.apps.clone();
-        let l = add_reboot_waits(&mut case.script, &mut rng, true, &apps);
+        let mut l = add_reboot_waits(&mut case.script, &mut rng, true, &apps);
+        if start_mode && cfg.paths[0] == Path::Install && rng.bool() {
+            // a long reboot wait with several pings
+            let c0 = &mut case.script.checks[0];
+            for x in c0.results.iter_mut() {
+                if *x == InstRes::Failed {
+                    *x = InstRes::Installed;
+                }
+            }
+            c0.reboot_needed = true;
+            c0.reboot_allowed = vec![false, false, false, false, false, true];
+            l.push_str("longwait");
+        }
+        if rng.chance(1, 5) {
+            case.script.repeat_last_attempt = true;
+            l.push_str("+norecovery");
+        }
         case.shape.push(l);
         case.sched = Sched::Random;
         case.nontrivial = true;
@@ -266,7 +283,11 @@ pub fn run(args: &Args, r: &mut Report) {
                 case.shape.push(format!("url:{}", u.chars().take(24).collect::<String>()));
                 case.setup.service_url = u;
             }
-            3 => case.shape.push("clock".into()),
+            3 => {
+                case.script.gated.install = true;
+                case.script.gated.policy = rng.bool();
+                case.shape.push("clock".into());
+            }
             4 | 5 => {}
             _ => {}
         }
